@@ -31,6 +31,7 @@ def random_experiment(rng, thorough):
     n_nodes = rng.choice([2, 2, 3])
     reqs = []
     total = 0
+    freed = set()
     for _ in range(rng.randrange(1, 5 if thorough else 4)):
         c = rng.randrange(n_nodes)
         r = rng.choice([x for x in range(n_nodes) if x != c])
@@ -41,8 +42,24 @@ def random_experiment(rng, thorough):
         if tp == "K":
             total += n
         sock = rng.randrange(2)
-        reqs.append({"c": c, "r": r, "n": n, "tp": tp, "ls": sock, "rs": rng.randrange(2) if rng.random() < 0.3 else sock,
-                     "rbl": rng.choice(RB), "rbr": rng.choice(RB)})
+        q = {"c": c, "r": r, "n": n, "tp": tp, "ls": sock, "rs": rng.randrange(2) if rng.random() < 0.3 else sock,
+             "rbl": rng.choice(RB), "rbr": rng.choice(RB)}
+        # basis-choice distributions (8-bit weights; XZ: [p1, 256-p1] over X,Z; XYZ: [p1, p2, 256-p1-p2] over X,Y,Z)
+        pr = []
+        for side in ("rbl", "rbr"):
+            p1 = rng.choice([0, 64, 128, 200, 255])
+            p2 = rng.choice([x for x in (0, 56, 100, 128) if p1 + x <= 256]) if q[side] == "XYZ" else 0
+            pr += [p1, p2]
+        q["probs"] = pr
+        reqs.append(q)
+        # a node gives up a half it got earlier (not necessarily the newest) before the next request: {"node", "req", "pair"}
+        q["free"] = []
+        if rng.random() < 0.45:
+            cands = [(x, k2, i) for k2, q2 in enumerate(reqs) if q2["tp"] == "K" for i in range(q2["n"]) for x in (q2["c"], q2["r"])
+                     if (x, k2, i) not in freed and x in (q["c"], q["r"])]
+            for (x, k2, i) in rng.sample(cands, min(len(cands), rng.randrange(1, 3))):
+                freed.add((x, k2, i))
+                q["free"].append({"node": x, "req": k2, "pair": i})
     return {"n_nodes": n_nodes, "reqs": reqs, "pb": rng.random() < 0.25, "sched": rng.randrange(10 ** 6), "coins": [rng.randrange(2) for _ in range(64)],
             "basis_seed": rng.randrange(10 ** 6)}
 
@@ -82,20 +99,27 @@ def run_experiment(env, exp):
         my = [(k, q) for k, q in enumerate(exp["reqs"]) if node in (q["c"], q["r"])]
 
         def body(conn, eprs, node=node, my=my):
+            got = {}
             for k, q in my:
                 if q["c"] == node:
                     e = eprs[socks[node].index(("N%d" % q["r"], q["ls"], q["rs"]))]
                     if q["tp"] == "K":
-                        e.create_keep(q["n"])
+                        got[k] = e.create_keep(q["n"])
                     else:
+                        EP.NEXT_PROBS[0] = q.get("probs")
                         e.create_measure(q["n"], random_basis_local=RandomBasis[q["rbl"]], random_basis_remote=RandomBasis[q["rbr"]])
                 else:
                     e = eprs[socks[node].index(("N%d" % q["c"], q["rs"], q["ls"]))]
                     if q["tp"] == "K":
-                        e.recv_keep(q["n"])
+                        got[k] = e.recv_keep(q["n"])
                     else:
                         e.recv_measure(q["n"])
                 conn.flush()
+                fr = [f for f in q.get("free", []) if f["node"] == node]
+                for f in fr:
+                    got[f["req"]][f["pair"]].free()
+                if fr:
+                    conn.flush()
         msgs = EP.sdk_messages(names, names[node], 0, socks[node], body, max_qubits=8)
         stops = [m for m in msgs if type(m).__name__ == "StopAppMessage"]
         streams[node] = [m for m in msgs if type(m).__name__ != "StopAppMessage"]
@@ -117,11 +141,12 @@ def run_experiment(env, exp):
         return res
     idx = {node: 0 for node in subs}
     pairs_by_socketpair = {}
+    gone = set((f["node"], f["req"], f["pair"]) for q in exp["reqs"] for f in q.get("free", []))
     for k, q in enumerate(exp["reqs"]):
         crep, _ = subs[q["c"]][idx[q["c"]]]
-        idx[q["c"]] += 1
+        idx[q["c"]] += 1 + (1 if any(f["node"] == q["c"] for f in q.get("free", [])) else 0)
         rrep, _ = subs[q["r"]][idx[q["r"]]]
-        idx[q["r"]] += 1
+        idx[q["r"]] += 1 + (1 if any(f["node"] == q["r"] for f in q.get("free", [])) else 0)
 
         def ent(rep):
             arrs = [r for r in rep if r[0] == "arr" and len(r[2]) == EP.OK_FIELDS * q["n"] and None not in r[2]]
@@ -142,7 +167,9 @@ def run_experiment(env, exp):
             pairs_by_socketpair.setdefault(key, []).append((a["sequence_number"], q["c"], k))
         hc, hr = net.hosts[q["c"]], net.hosts[q["r"]]
         for i in range(q["n"]):
-            if q["tp"] == "K":
+            if q["tp"] == "K" and ((q["c"], k, i) in gone or (q["r"], k, i) in gone):
+                res["freed_pairs"] = res.get("freed_pairs", 0) + 1       # one half was given up on purpose: nothing to compare
+            elif q["tp"] == "K":
                 pa, pb_ = ce[i]["logical_qubit_id"], re_[i]["logical_qubit_id"]
                 if pa not in hc.factory.qubitList or pb_ not in hr.factory.qubitList:
                     P.append({"kind": "delivery", "what": "request %d pair %d: reported qubit ids (%r, %r) are not in the hosts' qubit lists" % (k, i, pa, pb_), "req": k})
@@ -154,6 +181,11 @@ def run_experiment(env, exp):
                     P.append({"kind": "state", "what": "request %d pair %d: the two delivered qubits are not an isolated |Phi+> pair" % (k, i), "req": k})
             else:
                 a, b = ce[i], re_[i]
+                res.setdefault("bases", []).append((a["measurement_basis"], b["measurement_basis"]))
+                for side, rec in (("rbl", a), ("rbr", b)):
+                    allowed = {"NONE": (0,), "XZ": (0, 1), "XYZ": (0, 1, 2)}[q[side]]
+                    if rec["measurement_basis"] not in allowed:
+                        P.append({"kind": "md-basis", "what": "request %d pair %d: reported basis %d is not in the requested set %s" % (k, i, rec["measurement_basis"], q[side]), "req": k})
                 if not EP.md_possible(a["measurement_basis"], a["measurement_outcome"], b["measurement_basis"], b["measurement_outcome"]):
                     P.append({"kind": "md-outcomes", "what": "request %d pair %d: outcomes (%d, %d) in bases (%d, %d) are impossible for |Phi+>"
                               % (k, i, a["measurement_outcome"], b["measurement_outcome"], a["measurement_basis"], b["measurement_basis"]), "req": k})
@@ -178,7 +210,7 @@ def run_experiment(env, exp):
         Q.script_coins(env, [(i * 7 + exp["sched"]) % 2 for i in range(64)], len(env.tap))
         for node in order:
             my, stops = marks[node]
-            mine = sum(q["n"] for q in exp["reqs"] if q["tp"] == "K" and node in (q["c"], q["r"]))
+            mine = sum(q["n"] for q in exp["reqs"] if q["tp"] == "K" and node in (q["c"], q["r"])) - sum(1 for g_ in gone if g_[0] == node)
             o = EP.run_concurrently(env, net, {node: stops}, random.Random(1))
             rep = o[node][0][1] if o[node] else []
             if not rep or rep[-1][0] != "done" or ("err", 0) in rep:
@@ -229,7 +261,7 @@ def run(ctx, only_extra=False):
         "clock advances; executioner.py's `random` (basis choice) is replaced by a seeded generator",
         "the sequence-number / FIFO model is compared through a linearisation of the observed creations and deliveries (the theorem says the result does "
         "not depend on the interleaving)"]
-    ctx.rule = ("random experiments: 2-3 nodes, 1-4 requests (create-and-keep / measure-directly, 1-3 pairs, random basis sets NONE/XZ/XYZ per side, 1-2 sockets "
+    ctx.rule = ("random experiments: 2-3 nodes, 1-4 requests (create-and-keep / measure-directly, 1-3 pairs, random basis sets NONE/XZ/XYZ per side with random 8-bit basis-choice weights (written into the request array; the SDK leaves them 0), 1-2 sockets "
                 "per node pair, both directions on one socket pair), random scheduler seed, 25% over real PB; per request the pairing predicate on both "
                 "ReturnArray contents, numpy check that the two delivered qubits are an isolated |Phi+> register, outcome possibility for measure-directly, "
                 "sequence numbers per socket pair, halves survive the creator's stop, everything gone after all stops; "
@@ -242,8 +274,12 @@ def run(ctx, only_extra=False):
     results = []
     fixed = [
         {"n_nodes": 2, "reqs": [{"c": 0, "r": 1, "n": 2, "tp": "K", "ls": 0, "rs": 0, "rbl": "NONE", "rbr": "NONE"}], "pb": False, "sched": 1, "coins": [1, 0] * 20, "basis_seed": 1},
-        {"n_nodes": 2, "reqs": [{"c": 0, "r": 1, "n": 3, "tp": "M", "ls": 0, "rs": 0, "rbl": "XYZ", "rbr": "XYZ"}], "pb": False, "sched": 2, "coins": [1, 1, 0] * 20, "basis_seed": 5},
+        {"n_nodes": 2, "reqs": [{"c": 0, "r": 1, "n": 3, "tp": "M", "ls": 0, "rs": 0, "rbl": "XYZ", "rbr": "XYZ", "probs": [100, 100, 56, 128]}], "pb": False, "sched": 2, "coins": [1, 1, 0] * 20, "basis_seed": 5},
         {"n_nodes": 2, "reqs": [{"c": 1, "r": 0, "n": 1, "tp": "K", "ls": 1, "rs": 0, "rbl": "NONE", "rbr": "NONE"}], "pb": True, "sched": 3, "coins": [0] * 40, "basis_seed": 2},
+        # the receiver gives up the OLDER of two halves and then receives another pair (ids / virtual numbers are reused)
+        {"n_nodes": 2, "reqs": [{"c": 0, "r": 1, "n": 2, "tp": "K", "ls": 0, "rs": 0, "rbl": "NONE", "rbr": "NONE", "free": [{"node": 1, "req": 0, "pair": 0}]},
+                                {"c": 0, "r": 1, "n": 1, "tp": "K", "ls": 0, "rs": 0, "rbl": "NONE", "rbr": "NONE", "free": [{"node": 0, "req": 0, "pair": 1}]},
+                                {"c": 1, "r": 0, "n": 1, "tp": "K", "ls": 1, "rs": 1, "rbl": "NONE", "rbr": "NONE"}], "pb": False, "sched": 5, "coins": [0, 1] * 20, "basis_seed": 4},
         # both directions on one socket pair (D15)
         {"n_nodes": 2, "reqs": [{"c": 0, "r": 1, "n": 1, "tp": "K", "ls": 0, "rs": 0, "rbl": "NONE", "rbr": "NONE"},
                                 {"c": 1, "r": 0, "n": 1, "tp": "K", "ls": 0, "rs": 0, "rbl": "NONE", "rbr": "NONE"}], "pb": False, "sched": 4, "coins": [0] * 40, "basis_seed": 3},
@@ -276,8 +312,11 @@ def run(ctx, only_extra=False):
         for q in e["reqs"]:
             ctx.count("requests_%s" % q["tp"])
             ctx.count("pairs", q["n"])
+            ctx.count("halves_given_up_between_requests", len(q.get("free", [])))
             if q["tp"] == "M":
                 ctx.count("basis_%s_%s" % (q["rbl"], q["rbr"]))
+        for bb in r.get("bases", []):
+            ctx.count("md_reported_bases_%d_%d" % bb)
         dirs = set((q["c"], q["r"], q["ls"], q["rs"]) for q in e["reqs"])
         if any((b, a, d, c) in dirs for (a, b, c, d) in dirs):
             ctx.count("experiments_with_both_directions_on_one_socket_pair")
